@@ -157,6 +157,10 @@ func main() {
 		geomReport(fset, pkgs)
 		return
 	}
+	if len(os.Args) > 2 && os.Args[2] == "datumbody" {
+		datumBodyReport(fset, pkgs)
+		return
+	}
 	if len(os.Args) > 2 && os.Args[2] == "axis" {
 		axisReport(fset, pkgs)
 		return
